@@ -14,6 +14,12 @@ CONSTANTS
   XKinds <- MCXKinds
   Script <- MCScript
   Kept <- MCKept
+  RefuseReg <- MCRefuseReg
+  RefuseInst <- MCRefuseInst
+  Invokers <- MCInvokers
+  CbOf <- MCCbOf
+  SharedObs = @SHAREDOBS@
+  Shape = @SHAPE@
   RecsPer = @RECSPER@
   SpansPer = @SPANSPER@
   UsesPer = @USESPER@
